@@ -29,7 +29,7 @@ Proof.
               Forall (freshOrSpan spans) (fst (let '(ok, r1) := next r' in
                  if negb ok then (acc', ps') else
                  if jumped r1 then
-                   collect_loop f r1 e tk esc (r_pos r1) (if ps' <? r_prev r1 then acc' ++ [mkI tk ps' (r_prev r1 + 1)] else acc')
+                   collect_loop f r1 e tk esc (r_pos r1) (if ps' <=? r_prev r1 then acc' ++ [mkI tk ps' (r_prev r1 + 1)] else acc')
                  else collect_loop f r1 e tk esc ps' acc'))).
     { intros r' ps' acc' Hs' Hacc'. pose proof (next_spans r') as Hn. destruct (next r') as [ok r1]. cbn [snd] in Hn.
       destruct (negb ok); [exact Hacc'|].
